@@ -108,6 +108,7 @@ def gen_case(rng, oversize=False, lossy=False):
     return dict(reqs=reqs, frames=frames_pol, key=rng.getrandbits(8),
                 rseed=rng.getrandbits(32), oversize=oversize,
                 narrow_indices=narrow,
+                reconnect=rng.random() < 0.15,
                 # the second and later masters on an interface use another
                 # ethertype than the default
                 ethertype=rng.choice([0x88A4, 0x88A4, 0x3000, 0x4567]))
@@ -204,6 +205,17 @@ def run_history(case):
             return r
         ec.send_queue.put_nowait = put
         ec.connection_made(Tr())
+        if case.get("reconnect"):
+            # the master object connects a second time (a re-connection
+            # after the interface went away): connect() makes a new queue
+            # and a new endpoint calls connection_made again; the first
+            # send loop is waiting at its (old) queue by then
+            for _ in range(3):
+                await asyncio.sleep(0)
+            ec.send_queue = asyncio.Queue()
+            orig_put = ec.send_queue.put_nowait
+            ec.send_queue.put_nowait = put
+            ec.connection_made(Tr())
         loop.on_iteration_user = None
         old_iter = loop.on_iteration
 
